@@ -7,17 +7,19 @@ pub fn plain_member(name: &str, desc: &str) -> AMember {
 	AMember { name: name.to_owned(), desc: desc.to_owned(), access: 0x0001, depr: false, synth: false, inv: vec![], vis: vec![], payload: None }
 }
 pub fn plain_class(name: &str) -> AClass {
-	AClass { version: 4, access: 0x0021, name: name.to_owned(), sup: Some("java/lang/Object".to_owned()), itfs: vec![], fields: vec![], methods: vec![],
+	AClass { version: 4, access: 0x0021, name: name.to_owned(), sup: Some("j/Object".to_owned()), itfs: vec![], fields: vec![], methods: vec![],
 		depr: false, synth: false, inner: None, vis: vec![], inv: vec![], perm: None, records: vec![], source_file: None }
 }
 
 fn subseq_of(rng: &mut Rng, s: &[u32], keep_num: usize, keep_den: usize) -> Vec<u32> { s.iter().copied().filter(|_| rng.chance(keep_num, keep_den)).collect() }
 
 /// (mode, a, b) over the symbols 1..=12
-pub fn list_pair(rng: &mut Rng) -> (&'static str, Vec<u32>, Vec<u32>) {
-	let mut universe: Vec<u32> = (1..=12).collect();
+pub fn list_pair(rng: &mut Rng) -> (&'static str, Vec<u32>, Vec<u32>) { list_pair_n(rng, 12) }
+/// (mode, a, b) over the symbols 1..=n
+pub fn list_pair_n(rng: &mut Rng, n: usize) -> (&'static str, Vec<u32>, Vec<u32>) {
+	let mut universe: Vec<u32> = (1..=n as u32).collect();
 	rng.shuffle(&mut universe);
-	let len = rng.range(0, 12);
+	let len = rng.range(0, n);
 	let s: Vec<u32> = universe[..len].to_vec();
 	match rng.below(12) {
 		0 | 1 | 2 => { // both are subsequences of one common order: compatible
@@ -40,7 +42,7 @@ pub fn list_pair(rng: &mut Rng) -> (&'static str, Vec<u32>, Vec<u32>) {
 		}
 		10 => { // arbitrary duplicate-free lists
 			let mut u2 = universe.clone(); rng.shuffle(&mut u2);
-			let (la, lb) = (rng.range(0, 8), rng.range(0, 8));
+			let (la, lb) = (rng.range(0, n * 2 / 3), rng.range(0, n * 2 / 3));
 			("arbitrary", universe[..la].to_vec(), u2[..lb].to_vec())
 		}
 		_ => { // with duplicates: outside the theorems' hypothesis, still compared with the model
@@ -88,7 +90,7 @@ fn gen_member(rng: &mut Rng, method: bool, id: u32) -> AMember {
 
 /// two member lists whose key orders are related as list_pair says; shared keys carry equal or differing bodies
 fn member_lists(rng: &mut Rng, method: bool, twist: Twist) -> (Vec<AMember>, Vec<AMember>) {
-	let (_, mut a, mut b) = list_pair(rng);
+	let (_, mut a, mut b) = list_pair_n(rng, 5);
 	if twist != Twist::DupKeys { dedup(&mut a); dedup(&mut b); } else { force_dup(rng, &mut a); force_dup(rng, &mut b); }
 	let mut proto: Vec<AMember> = (0..=12).map(|i| gen_member(rng, method, i)).collect();
 	// distinct keys per id: make sure (name, desc) differ between ids
@@ -131,11 +133,11 @@ fn class_pair(rng: &mut Rng, name: &str, twist: Twist) -> (AClass, AClass) {
 		_ => {
 			let (fa, fb) = member_lists(rng, false, twist); c.fields = fa; s.fields = fb;
 			let (ma, mb) = member_lists(rng, true, twist); c.methods = ma; s.methods = mb;
-			let (_, mut ia, mut ib) = list_pair(rng);
+			let (_, mut ia, mut ib) = list_pair_n(rng, 5);
 			if twist != Twist::DupKeys { dedup(&mut ia); dedup(&mut ib); } else { force_dup(rng, &mut ia); force_dup(rng, &mut ib); }
 			c.itfs = ia.iter().map(|n| format!("I{n}")).collect(); s.itfs = ib.iter().map(|n| format!("I{n}")).collect();
 			if rng.chance(1, 3) {
-				let (_, mut na, mut nb) = list_pair(rng); dedup(&mut na); dedup(&mut nb); na.truncate(4); nb.truncate(4);
+				let (_, mut na, mut nb) = list_pair_n(rng, 3); dedup(&mut na); dedup(&mut nb);
 				let mk = |l: &[u32]| -> Option<Vec<(String, u16)>> { if l.is_empty() && l.len() % 2 == 0 { None } else { Some(l.iter().map(|n| (format!("{name}$N{n}"), 0x0009u16)).collect()) } };
 				c.inner = mk(&na); s.inner = mk(&nb);
 				if rng.chance(1, 8) { s.inner = Some(vec![]); }
@@ -164,17 +166,17 @@ const META_NAMES: [&str; 10] = ["META-INF/MANIFEST.MF", "META-INF/MOJANGCS.SF", 
 const DIR_NAMES: [&str; 4] = ["net/", "net/minecraft/", "assets/", "META-INF/"];
 
 fn gen_time(rng: &mut Rng) -> (u16, u8, u8, u8, u8, u8) { (rng.range(1980, 2030) as u16, rng.range(1, 12) as u8, rng.range(1, 28) as u8, rng.below(24) as u8, rng.below(60) as u8, (rng.below(30) * 2) as u8) }
-fn gen_bytes(rng: &mut Rng) -> Vec<u8> { (0..rng.below(6)).map(|_| rng.below(256) as u8).collect() }
+fn gen_bytes(rng: &mut Rng) -> Vec<u8> { (0..rng.below(4)).map(|_| rng.below(256) as u8).collect() }
 
 pub fn jar_pair(rng: &mut Rng, twist: Twist, route: Route) -> (AJar, AJar) {
 	let mut client: AJar = vec![]; let mut server: AJar = vec![];
 	// 0 client only, 1 server only, 2 both; the mix decides disjoint / identical / overlapping
 	let mix = rng.below(4);
-	let mut place = |rng: &mut Rng| -> usize { match mix { 0 => rng.below(2), 1 => 2, _ => rng.below(3) } };
+	let place = |rng: &mut Rng| -> usize { match mix { 0 => rng.below(2), 1 => 2, _ => rng.below(3) } };
 	let mut names: Vec<(&str, usize)> = vec![]; // (name, kind 0 class 1 resource 2 meta 3 dir)
-	for n in CLASS_NAMES { if rng.chance(1, 2) { names.push((n, 0)); } }
-	for n in RES_NAMES { if rng.chance(1, 3) { names.push((n, 1)); } }
-	for n in META_NAMES { if rng.chance(1, 3) { names.push((n, 2)); } }
+	for n in CLASS_NAMES { if rng.chance(1, 3) { names.push((n, 0)); } }
+	for n in RES_NAMES { if rng.chance(1, 5) { names.push((n, 1)); } }
+	for n in META_NAMES { if rng.chance(1, 4) { names.push((n, 2)); } }
 	for n in DIR_NAMES { if rng.chance(1, 4) { names.push((n, 3)); } }
 	if rng.chance(1, 30) { names.clear(); }
 	rng.shuffle(&mut names);
@@ -187,7 +189,8 @@ pub fn jar_pair(rng: &mut Rng, twist: Twist, route: Route) -> (AJar, AJar) {
 			else { Twist::None };
 		let (cc, sc) = match kind {
 			0 => {
-				let cname = n.strip_suffix(".class").unwrap_or(n);
+				// the class's own name is the last segment: the merge never relates it to the entry name
+				let cname = n.strip_suffix(".class").unwrap_or(n).rsplit('/').next().unwrap_or("A");
 				let (c, s) = class_pair(rng, cname, if tw == Twist::BadBytes { Twist::None } else { tw });
 				if tw == Twist::BadBytes {
 					let bad = || AContent::RawClass(vec![0xCA, 0xFE, 0xBA, 0xBE, 0, 0]);
